@@ -7,6 +7,8 @@ mod c08;
 mod c12;
 mod c03;
 mod c07;
+mod c04;
+mod c05;
 
 fn main() {
     std::panic::set_hook(Box::new(|_| {}));
@@ -24,6 +26,8 @@ fn main() {
         "c12" => c12::run(tier, seed, &mut out),
         "c03" => c03::run(tier, seed, &mut out),
         "c07" => c07::run(tier, seed, &mut out),
+        "c04" => c04::run(tier, seed, &mut out),
+        "c05" => c05::run(tier, seed, &mut out),
         _ => {
             eprintln!("unknown family {}", fam);
             std::process::exit(2);
